@@ -142,6 +142,7 @@ class State:
         self.nfresh = 0
         self.feasible = True
         self.defs: dict[str, ast.AST] = {}
+        self._no_havoc = False
 
     def clone(self) -> "State":
         s = State()
@@ -293,6 +294,9 @@ class Evaluator:
         self.rewrite = rewrite
         self.fold_consts = fold_consts
         self._loop_stores: dict[int, set[str]] = {}
+        #: loop exits are explored precisely: zero iterations (pre-state, no havoc) and "after a last iteration"
+        #: (havoc, one trip through the body, back to the head, exit) -- instead of one havocked exit
+        self.peel = True
 
     # ------------------------------------------------------------ purity
     def is_pure(self, callee: str | None, attr: str | None) -> bool:
@@ -692,7 +696,8 @@ class Evaluator:
             if k == "withexit":
                 st.events.append(Event("withexit", n.owner, n.id, ncond=len(st.cond)))
             return
-        if k in ("test", "for") and self.havoc and isinstance(n.owner, (ast.While, ast.For)) and self.has_back_edge(n):
+        if k in ("test", "for") and self.havoc and isinstance(n.owner, (ast.While, ast.For)) and self.has_back_edge(n) \
+                and not getattr(st, "_no_havoc", False) and (label == "true" or not self.peel):
             for key in sorted(self.loop_stores(n)):
                 base = key.split(".")[0]
                 full = key
@@ -791,28 +796,47 @@ class Evaluator:
         back_stops = set(back_stops)
         count = 0
         base = init.clone() if init is not None else State()
-        stack: list[tuple[int, list[tuple[int, str]], frozenset, State]] = [(s0, [(s0, "")], frozenset([s0]), base)]
+        heads = {n.id for n in cfg.nodes if n.kind in ("test", "for") and isinstance(n.owner, (ast.While, ast.For))} if self.peel else set()
+        # (node, path, seen, state, heads visited twice)
+        stack: list[tuple[int, list[tuple[int, str]], frozenset, State, frozenset]] = [(s0, [(s0, "")], frozenset([s0]), base, frozenset())]
         while stack:
-            nid, path, seen, st = stack.pop()
+            nid, path, seen, st, twice = stack.pop()
             if nid in ends and len(path) > 1:
                 count += 1
                 if count > limit:
                     raise AnalysisError(f"path bound exceeded in {self.fi.qualname}")
                 yield path, st
                 continue
+            second = nid in twice
             for (m, lab) in cfg.succ[nid]:
-                if m in seen and m in back_stops and m not in avoid:
+                if m in seen and m in back_stops and m not in avoid and not second:
                     # back edge to a stop node (one full trip round a loop)
                     for st2 in self.exec_fork(st.clone(), cfg.nodes[nid], lab):
                         if st2.feasible:
                             count += 1
+                            if count > limit:
+                                raise AnalysisError(f"path bound exceeded in {self.fi.qualname}")
                             yield path + [(m, lab)], st2
-            succ = [(m, lab) for (m, lab) in cfg.succ[nid] if m not in seen and m not in avoid]
-            for (m, lab) in reversed(succ):
-                for st2 in self.exec_fork(st.clone(), cfg.nodes[nid], lab):
+            succ = []
+            for (m, lab) in cfg.succ[nid]:
+                if m in avoid:
+                    continue
+                if m not in seen:
+                    if second and lab == "true":
+                        continue  # second visit of a loop head: only the exit
+                    succ.append((m, lab, twice))
+                elif m in heads and m not in twice and m != nid and self.has_back_edge(cfg.nodes[m]) and not second:
+                    # back edge: visit the head once more to leave the loop after this (last) iteration
+                    succ.append((m, lab, twice | {m}))
+            for (m, lab, tw) in reversed(succ):
+                st0 = st.clone()
+                if second:
+                    st0._no_havoc = True
+                for st2 in self.exec_fork(st0, cfg.nodes[nid], lab):
+                    st2._no_havoc = False
                     if not st2.feasible:
                         continue
-                    stack.append((m, path + [(m, lab)], seen | {m}, st2))
+                    stack.append((m, path + [(m, lab)], seen | {m}, st2, tw))
 
 
 def _as_load(t: ast.AST) -> ast.AST:
